@@ -105,11 +105,18 @@ type c19Config struct {
 	Parallel                         bool
 	Force                            bool
 	Rewrite                          string // "", "r1->r1b" (valid -> other valid), "bad->good" (broken file repaired after pass 1)
+	// the -debug-* flags: what they print goes to stderr; the diagnostics must not depend on them
+	DebugGroup, DebugFunc string
+	DebugED, DebugImports bool
 }
 
 func (c c19Config) String() string {
-	return fmt.Sprintf("-rules=%q -e=%q -enable=%q -disable=%q -go=%q passes=%d parallel=%v force=%v rewrite=%q",
+	s := fmt.Sprintf("-rules=%q -e=%q -enable=%q -disable=%q -go=%q passes=%d parallel=%v force=%v rewrite=%q",
 		c.Rules, c.E, c.Enable, c.Disable, c.GoVer, c.Passes, c.Parallel, c.Force, c.Rewrite)
+	if c.DebugGroup != "" || c.DebugFunc != "" || c.DebugED || c.DebugImports {
+		s += fmt.Sprintf(" -debug-group=%q -debug-func=%q -debug-enable-disable=%v -debug-imports=%v", c.DebugGroup, c.DebugFunc, c.DebugED, c.DebugImports)
+	}
+	return s
 }
 
 type c19PassResult struct {
@@ -189,6 +196,10 @@ func c19Apply(c c19Config, dir string) {
 	set("enable", c.Enable)
 	set("disable", c.Disable)
 	set("go", c.GoVer)
+	set("debug-group", c.DebugGroup)
+	set("debug-func", c.DebugFunc)
+	set("debug-enable-disable", fmt.Sprint(c.DebugED))
+	set("debug-imports", fmt.Sprint(c.DebugImports))
 }
 
 func runC19(c *Ctx) error {
@@ -634,6 +645,12 @@ func c19GenConfig(rng *rand.Rand, enables, disables []string) c19Config {
 	cfg.GoVer = []string{"", "", "", "1.16", "1.21", "bad", "1.x"}[rng.Intn(7)]
 	cfg.Parallel = cfg.Passes > 1 && rng.Intn(3) == 0
 	cfg.Force = rng.Intn(12) == 0
+	if rng.Intn(4) == 0 {
+		cfg.DebugGroup = []string{"", "g1", "h2", "e", "nope"}[rng.Intn(5)]
+		cfg.DebugFunc = []string{"", "isOK", "nope"}[rng.Intn(3)]
+		cfg.DebugED = rng.Intn(2) == 0
+		cfg.DebugImports = rng.Intn(2) == 0
+	}
 	if !cfg.Parallel && !cfg.Force && cfg.Passes > 1 {
 		switch {
 		case strings.Contains(cfg.Rules, "r1.go") && rng.Intn(2) == 0:
@@ -656,5 +673,8 @@ func c19Corpus() []c19Config {
 		{Rules: "r1.go", Enable: "<all>", GoVer: "bad", Passes: 2},
 		{Rules: "r1.go,r3.go", Enable: "<all>", Passes: 2},
 		{Rules: "r1.go,r3.go", Enable: "<all>", Disable: "g1", Passes: 2},
+		{E: "m.Match(`probe(`)", Enable: "<all>", Passes: 2},
+		{Rules: "r1.go,r2.go", Enable: "g1,h1", Disable: "h1", Passes: 2, DebugGroup: "g1", DebugED: true, DebugImports: true},
+		{E: "m.Match(`probe($x)`)", Enable: "<all>", Passes: 1, DebugGroup: "e", DebugED: true},
 	}
 }
